@@ -218,9 +218,14 @@ for (m, k, sz, al, dp, off, uw, lim, ex) in F3_LIST:
               "block_placement": "end-aligned in the slot", "unwind": uw})
 
 
+for m in (1, 16):
+    H("f3_new_chunk_prev_m%d" % m, "__verif::f3", "F3", quick=["C03"] + (["C08"] if m == 1 else []), thorough=["C03", "C08", "C10"], timeout=900, cost=20, stubs=STUB_POOL,
+      inst="Bump<%d>" % m, funcs=["Bump::new_chunk", "Bump::new_chunk_memory_details"], exempt=[r"chunk created and released"],
+      bounds={"predecessor": "one registered 448-byte chunk, finger anywhere (incl. completely unused)", "request": "concrete"})
 for (m, sz, al, dp) in [(1, 64, 64, 1), (1, 10, 32, 3), (16, 100, 8, 1), (8, 600, 128, 0)]:
     H("f3_new_chunk_m%d_s%d_a%d_d%d" % (m, sz, al, dp), "__verif::f3", "F3", quick=["C03", "C04", "C08"] if al >= 32 else ["C03"], thorough=["C01", "C03", "C04", "C08"],
       timeout=900, cost=15, stubs=STUB_POOL, inst="Bump<%d>" % m, funcs=["Bump::new_chunk", "Bump::new_chunk_memory_details", "dealloc_chunk_list"],
+      exempt=[r"behind a predecessor|predecessor completely unused"],
       bounds={"request": "size %d align %d (concrete)" % (sz, al), "block_displacement": "%d x alignment" % dp})
 
 # ---------------------------------------------------------------------------
@@ -269,9 +274,9 @@ for m in (1, 16):
     _f7("f7_tw_same_inf_m%d" % m, ["C11"] if m == 1 else [], ["C11", "C02"], STUB_CUT, F7TW,
         {"chunk": "256-byte chunk, symbolic start/finger", "value": "Result<u64, E(u32, D)>", "allocator": "A-cut"}, "Bump<%d>, alloc_try_with" % m, cost=120)
 for nm, m in (("f7_tw_newchunk_try_m8", 8), ("f7_tw_newchunk_inf_m4", 4), ("f7_tw_newchunk_inf_m16", 16)):
-    _f7(nm, ["C11", "C03", "C08"] if m == 16 else [], ["C11", "C10", "C03", "C08"], STUB_POOL, F7TW + ["Bump::alloc_layout_slow", "Bump::new_chunk"],
+    _f7(nm, ["C11", "C03", "C08"] if m == 16 else (["C11"] if m == 8 else []), ["C11", "C10", "C03", "C08"], STUB_POOL, F7TW + ["Bump::alloc_layout_slow", "Bump::new_chunk"],
         {"pre_state": "one 448-byte chunk with 16 bytes free (concrete)", "value": "Result<[u8;200], E>", "allocator": "A-pool, nothing refused"}, "Bump<%d>" % m, cost=60)
-for nm, m, q in (("f7_tw_newchunk_nested_inf_m16", 16, ["C11"]), ("f7_tw_newchunk_nested_try_m4", 4, []), ("f7_try_fill_newchunk_m4", 4, []), ("f7_try_fill_newchunk_m16", 16, ["C10", "C11"])):
+for nm, m, q in (("f7_tw_newchunk_nested_inf_m16", 16, ["C11", "C01"]), ("f7_tw_newchunk_nested_try_m4", 4, []), ("f7_try_fill_newchunk_m4", 4, []), ("f7_try_fill_newchunk_m16", 16, ["C10", "C11"])):
     _f7(nm, q, ["C01", "C10", "C11", "C02"], STUB_POOL, F7TW + ["Bump::alloc_slice_try_fill_with", "Bump::alloc_layout_slow", "Bump::new_chunk"],
         {"pre_state": "one 448-byte chunk, 16 (0) bytes free (concrete)", "scenario": nm, "allocator": "A-pool, nothing refused"}, "Bump<%d>" % m, cost=60)
 for nm, m in (("f7_tw_nested_keep_m1", 1), ("f7_tw_nested_keep_m16", 16), ("f7_tw_nested_release_m1", 1), ("f7_tw_nested_release_m8", 8)):
